@@ -21,6 +21,7 @@ machine with the old effects that they are not vacuous (`…_old_code_fails`).
 import CaddyModel.C02.Lemmas
 import CaddyModel.C02.Reload
 import CaddyModel.C02.Admin
+import CaddyModel.C02.Key
 import CaddyModel.C02.Witness
 
 namespace CaddyModel.C02
